@@ -194,6 +194,51 @@ BUFFER_FUNCS = [
 ]
 
 
+def _param_uses(mod, fn, param, seen):
+    """yield (name node, stmt, ok) for every load of `param` in fn; handing the iterator to a function of the same
+    module is followed into that function's parameter (same rule there)."""
+    aliases = {param}
+    for n in walk_no_nested(fn):
+        if isinstance(n, ast.Name) and n.id in aliases and isinstance(n.ctx, ast.Load):
+            p = n._parent
+            stmt = n
+            while not isinstance(stmt, ast.stmt):
+                stmt = stmt._parent
+            in_raise = False
+            q = n
+            while q is not fn:
+                if isinstance(q, ast.Raise):
+                    in_raise = True
+                q = q._parent
+            iterated = (isinstance(p, (ast.For, ast.comprehension)) and p.iter is n)  # for-loops use iter()/next()
+            ok = (isinstance(p, ast.Call) and call_name(p) in ("iter", "next") and p.args and p.args[0] is n) or in_raise or iterated
+            if not ok:
+                call, kw = p, None
+                if isinstance(p, ast.keyword):
+                    kw, call = p.arg, p._parent
+                if isinstance(call, ast.Call) and isinstance(call.func, ast.Name) and (kw is not None or n in call.args):
+                    try:
+                        callee = mod.function(call.func.id)
+                    except (AnalysisError, KeyError):
+                        callee = None
+                    if callee is not None and not callee.args.vararg:
+                        cparams = [a.arg for a in callee.args.args]
+                        target = kw if kw is not None else (cparams[call.args.index(n)] if call.args.index(n) < len(cparams) else None)
+                        if target in cparams:
+                            key = (callee.name, target)
+                            if key in seen:
+                                ok = True
+                            else:
+                                seen.add(key)
+                                inner = list(_param_uses(mod, callee, target, seen))
+                                if all(o for _, _, o in inner):
+                                    ok = True
+                                else:
+                                    yield from inner
+                                    continue
+            yield n, stmt, ok
+
+
 def t2(run, project):
     for modname, fname in BUFFER_FUNCS:
         mod = project.module(modname)
@@ -201,26 +246,12 @@ def t2(run, project):
         params = [a.arg for a in fn.args.args]
         if "buffer" not in params:
             raise AnalysisError(f"C10: {modname}.{fname} has no `buffer` parameter")
-        aliases = {"buffer"}
         # `buffer = iter(buffer)` rebinding keeps the name an iterator: afterwards only next() is allowed
-        for n in walk_no_nested(fn):
-            if isinstance(n, ast.Name) and n.id in aliases and isinstance(n.ctx, ast.Load):
-                p = n._parent
-                stmt = n
-                while not isinstance(stmt, ast.stmt):
-                    stmt = stmt._parent
-                in_raise = False
-                q = n
-                while q is not fn:
-                    if isinstance(q, ast.Raise):
-                        in_raise = True
-                    q = q._parent
-                iterated = (isinstance(p, (ast.For, ast.comprehension)) and p.iter is n)  # for-loops use iter()/next()
-                ok = (isinstance(p, ast.Call) and call_name(p) in ("iter", "next") and p.args and p.args[0] is n) or in_raise or iterated
-                run.ob("T2", ok, f"{modname.split('.')[-2]}.{fname}: buffer use at L{n.lineno} is iter()/next()",
-                       f"`{norm(stmt).splitlines()[0]}` uses the input other than through iter()/next(): the source is "
-                       "pre-read or must be a sequence", module=mod, node=stmt, func=fname,
-                       construct=norm(stmt).splitlines()[0])
+        for n, stmt, ok in _param_uses(mod, fn, "buffer", {(fname, "buffer")}):
+            run.ob("T2", ok, f"{modname.split('.')[-2]}.{fname}: buffer use at L{n.lineno} is iter()/next()",
+                   f"`{norm(stmt).splitlines()[0]}` uses the input other than through iter()/next(): the source is "
+                   "pre-read or must be a sequence", module=mod, node=stmt, func=fname,
+                   construct=norm(stmt).splitlines()[0])
         # the function is a generator (lazy) unless it is the pump
         gen = any(isinstance(n, (ast.Yield, ast.YieldFrom)) for n in walk_no_nested(fn))
         run.ob("T2", gen, f"{modname.split('.')[-2]}.{fname} is a generator (lazy)", "no longer a generator: input is processed eagerly",
